@@ -14,8 +14,12 @@
    (Model/C14Float.v).
 
    Definitions only -- proofs are in Proofs/C14*.v.  The model is FAITHFUL:
-   quirks of the code (maps with <= 3 points, exactly 3 points in data, single
-   column maps, names with blanks, ci = -1, ...) are modelled as they are. *)
+   quirks of the code (an extra column named like a standard column, ci = -1,
+   steps below the printed precision, runs of blanks in names, ...) are
+   modelled as they are.  It follows the code after the repairs of
+   get_map_data (maps of at most 3 points, exactly 3 points in data), of the
+   reader (single data line; "Formula" line read like "MaterialName") and of
+   the writer (single-column and single-point maps; "ds" default). *)
 From Coq Require Import ZArith String Ascii List Bool Lia.
 Import ListNotations.
 Open Scope Z_scope.
@@ -197,7 +201,7 @@ Definition core_fields : list string :=
 (* names searched for when a property keyword is not given *)
 Definition search_names : list (list string) :=
   [["iq"; "imagequality"]; ["ci"; "confidenceindex"; "scores"; "correlation"];
-   ["ss"; "semsignal"; "detectorsignal"]; ["fit"; "patternfit"]]%string.
+   ["ds"; "ss"; "semsignal"; "detectorsignal"]; ["fit"; "patternfit"]]%string.
 
 Definition fp_emsoft : string := "EMsoft".
 Definition fp_astar : string := "ACOM".
@@ -282,7 +286,8 @@ Definition orix_column_names (h : list hline) : option (list string) :=
   | _ => None
   end.
 
-(* _get_phases_from_header *)
+(* _get_phases_from_header: names and formulas = " ".join(group[1:]), point
+   groups = group[-1] *)
 Record raw_phases := { rw_ids : list Z; rw_names : list string; rw_formulas : list string;
                        rw_pgs : list string; rw_lats : list (list Z) }.
 Definition raw_empty : raw_phases := {| rw_ids := []; rw_names := []; rw_formulas := []; rw_pgs := []; rw_lats := [] |}.
@@ -299,7 +304,7 @@ Definition raw_step (a : raw_phases) (l : hline) : raw_phases :=
   | LFormula s => match words s with
                   | [] => a
                   | ws => {| rw_ids := rw_ids a; rw_names := rw_names a;
-                             rw_formulas := rw_formulas a ++ [last ws EmptyString];   (* group[-1] *)
+                             rw_formulas := rw_formulas a ++ [unwords ws];   (* " ".join(group[1:]) *)
                              rw_pgs := rw_pgs a; rw_lats := rw_lats a |}
                   end
   | LSymmetry s => match words s with
@@ -448,8 +453,9 @@ Definition read (f : file) : option rmap :=
   let h := f_header f in
   let rows := f_rows f in
   pl <- phase_list_of (parse_raw h) ;;
-  (* np.loadtxt returns a 1-D array for a single data row: file_data.shape[1] raises *)
-  if Nat.leb (length rows) 1 then None else
+  (* np.loadtxt(..., ndmin=2): a single data row is a 1 x n array; without any
+     data row the array has no column and file_data[:, 0] raises *)
+  if Nat.eqb (length rows) 0 then None else
   match vendor_of h with
   | VOrix =>
       names <- orix_column_names h ;;
@@ -539,17 +545,15 @@ Definition geometry (m : cmap) : option geom :=
       then Some {| g_nrows := nr; g_ncols := nc; g_dy := m_dy m; g_dx := m_dx m; g_pts := box |}
       else if Nat.ltb 1 C      (* 1-D along x *)
       then Some {| g_nrows := 1; g_ncols := nc; g_dy := t1; g_dx := m_dx m; g_pts := box |}
-      else if Nat.ltb 1 R      (* single column: shape = (n,), so ncols := n and dx := xmap.dx = 0 *)
-      then Some {| g_nrows := 1; g_ncols := nr; g_dy := t1; g_dx := t0; g_pts := box |}
-      else None                (* shape () : "nrows, ncols = xmap.shape" raises *)
+      else if Nat.ltb 1 R      (* 1-D along y (xmap.x is None): a single column, dx := 1 *)
+      then Some {| g_nrows := nr; g_ncols := 1; g_dy := m_dy m; g_dx := t1; g_pts := box |}
+      else                     (* shape (): a single point, nrows = ncols = 1, dy, dx = xmap.dy, xmap.dx *)
+           Some {| g_nrows := 1; g_ncols := 1; g_dy := m_dy m; g_dx := m_dx m; g_pts := box |}
   end.
 
-(* get_map_data fails for these maps:
-   - at most 3 points in total: the (n,3) Euler array is not recognised
-   - exactly 3 points in data (of more than 3): the 1-D is_indexed array is
-     taken for an RGB array *)
-Definition map_data_ok (m : cmap) : bool :=
-  (Nat.ltb 3 (m_rows m * m_cols m) && negb (Nat.eqb (length (in_pts m)) 3))%bool.
+(* get_map_data: three values per point (Euler angles) are recognised by the
+   number of array dimensions, for every map size; a 1-D array is one value per
+   point -- no map is refused on account of its size *)
 
 Definition indexed_at (m : cmap) (p : nat) : bool :=
   (nth p (m_in m) false && negb (nth p (m_pid m) (-1) =? -1))%bool.
@@ -685,8 +689,6 @@ Definition row_of (m : cmap) (g : geom) (kw : kwargs) (k p : nat) : option (list
 
 Definition write (m : cmap) (kw : kwargs) : option file :=
   g <- geometry m ;;
-  if negb (map_data_ok m) then None else
-  (* with index given the Euler array (n,3) needs more than 3 map points: implied by map_data_ok *)
   hdr <- header_of m g kw ;;
   rows <- sequence (map (fun kp => row_of m g kw (fst kp) (snd kp))
                         (combine (seq 0 (length (g_pts g))) (g_pts g))) ;;
